@@ -93,6 +93,9 @@ def edge_shapes(tier):
     ]
     for j, (st, shs) in enumerate(bodies):
         cases += A.both_modes("c01sh-%d" % j, A.file([A.stanza("(module) @_m ", st)], shorthands=shs), 1 + j % 3)
+    # a wide tree: 300 sibling statements, each paired with the last one (no match may be lost, in either mode)
+    pair_q = "(module (expression_statement (identifier) @name) (pass_statement) @end) "
+    cases += A.both_modes("c01wide", A.file([A.stanza(pair_q, [A.node(v("n")), A.attrn(v("n"), A.attr("of", A.call("source-text", c("name")))), A.let(v("e"), c("end"))])]), A.wide_source())
     return cases
 
 
